@@ -92,6 +92,41 @@ func c08Cells() []c08Cell {
 			}
 			return pkt(g, over)
 		}},
+		// several out-of-range values in one packet: a check that collects the offending bits of all
+		// reports (sum, xor) instead of testing each one must still refuse
+		{"RR.several-TotalLost", func(r *core.Rand, l int) c08Probe {
+			rr := &rtcp.ReceiverReport{SSRC: r.U32(), Reports: reportsN(r, 2+r.Intn(6))}
+			over := l >= 2
+			for i := range rr.Reports {
+				rr.Reports[i].TotalLost &= 0xFFFFFF
+			}
+			if over {
+				tops := [][]uint32{{0x80, 0x80}, {0xFF, 0x01}, {0x40, 0x40, 0x40, 0x40}, {0x01, 0x01}, {0x55, 0xAA, 0x01}, {0x7F, 0x7F, 0x02}, {uint32(1 + r.Intn(255)), uint32(1 + r.Intn(255))}}[r.Intn(7)]
+				if l == 3 {
+					a := uint32(1 + r.Intn(255))
+					tops = []uint32{a, 256 - a}
+				}
+				for i, t := range tops {
+					if i < len(rr.Reports) {
+						rr.Reports[len(rr.Reports)-1-i].TotalLost |= t << 24
+					}
+				}
+			}
+			return pkt(rr, over)
+		}},
+		{"SR.several-TotalLost", func(r *core.Rand, l int) c08Probe {
+			sr := &rtcp.SenderReport{SSRC: r.U32(), NTPTime: r.U64(), Reports: reportsN(r, 2+r.Intn(6))}
+			over := l >= 2
+			for i := range sr.Reports {
+				sr.Reports[i].TotalLost &= 0xFFFFFF
+			}
+			if over {
+				a := uint32(1 + r.Intn(255))
+				sr.Reports[0].TotalLost |= a << 24
+				sr.Reports[len(sr.Reports)-1].TotalLost |= (256 - a) << 24
+			}
+			return pkt(sr, over)
+		}},
 		{"Header.Count", func(r *core.Rand, l int) c08Probe {
 			n, over := lvl(l, 30, 31, 32, 33+r.Intn(223))
 			h := rtcp.Header{Padding: r.Bool(), Count: uint8(n), Type: rtcp.PacketType(r.U8()), Length: r.U16()}
